@@ -240,29 +240,35 @@ def mediaLine (d : Doc) (key : UInt8) (val : Str) : Res (St × Doc) :=
 /-- keys whose value is stored or dropped without being looked at -/
 def opaqueKey (key : UInt8) : Bool := key = 115 || key = 105 || key = 101 || key = 112 || key = 107
 
+/-- a line whose value holds a byte ≥ 0x80 under a key whose handler looks at the value: `unm` if the
+key is valid in this state (the handler would run Unicode-aware `strings` functions), `err` if the key
+is invalid in this state whatever the value holds -/
+def nonAsciiLine (st : St) (key : UInt8) : Res (St × Doc) :=
+  match st with
+  | .media => if key = 109 ∨ key = 99 ∨ key = 98 ∨ key = 97 then .unm else .err
+  | _ =>
+    if key = 118 then .err   -- v= needs the value "0", which is ASCII
+    else if key = 114 then (if st = .time then .unm else .err)
+    else if key = 111 ∨ key = 117 ∨ key = 99 ∨ key = 98 ∨ key = 122 ∨ key = 97 ∨ key = 116 ∨ key = 109 then .unm
+    else .err
+
+/-- the line machine proper: one `key=value` line in state `st` -/
+def keyLine (st : St) (d : Doc) (key : UInt8) (val : Str) : Res (St × Doc) :=
+  match st with
+  | .initial =>
+    if key = 118 then (if val = b!"0" then .ok (.session, d) else .err)
+    else sessionLine d key val
+  | .session => sessionLine d key val
+  | .media => mediaLine d key val
+  | .time =>
+    if key = 114 then (if repeatOk val then .ok (.time, d) else .err)
+    else sessionLine d key val
+
 /-- one non-empty line -/
 def stepLine (st : St) (d : Doc) (line : Str) : Res (St × Doc) :=
   match line with
   | key :: 61 :: val =>
-    if !opaqueKey key && !val.all isAscii then
-      -- a key that is invalid in this state is an error whatever the value holds
-      match st with
-      | .media => if key = 109 ∨ key = 99 ∨ key = 98 ∨ key = 97 then .unm else .err
-      | _ =>
-        if key = 118 then (if st = .initial then (if val = b!"0" then .unm else .err) else .err)
-        else if key = 114 then (if st = .time then .unm else .err)
-        else if key = 111 ∨ key = 117 ∨ key = 99 ∨ key = 98 ∨ key = 122 ∨ key = 97 ∨ key = 116 ∨ key = 109 then .unm
-        else .err
-    else
-    match st with
-    | .initial =>
-      if key = 118 then (if val = b!"0" then .ok (.session, d) else .err)
-      else sessionLine d key val
-    | .session => sessionLine d key val
-    | .media => mediaLine d key val
-    | .time =>
-      if key = 114 then (if repeatOk val then .ok (.time, d) else .err)
-      else sessionLine d key val
+    if !opaqueKey key && !val.all isAscii then nonAsciiLine st key else keyLine st d key val
   | _ => .err
 
 def runLines : St → Doc → List Str → Res Doc
